@@ -460,6 +460,11 @@ class Run:
                     start_next(k)
                     continue
             conn = self._conn(k)
+            if d["t"] == "reset":
+                # the device resets the session instead of answering this frame (RST): the read fails with ConnectionResetError
+                self.log(ev="Reset", c=k + 1)
+                conn.reset()
+                continue
             data = b"" if conn.sent_eof else devreply(d, self.devs[k])
             self.log(ev="Reply", c=k + 1, b=list(data), src="device" if (d["t"] == "listing" and data) else "script")
             conn.feed(data)
